@@ -254,6 +254,11 @@ def run(ctx):
             ctx.problem('correspondence', 'suite mra: model and implementation disagree on %s; impl=%s model=%s; oracle: %s'
                         % (cases[idx][0], cases[idx][2][:400], model_out[:400], why or 'identity holds on this input'),
                         inputs={'suite': 'mra', 'input': cases[idx][0], 'property_failure': why}, failing_input_found=bool(why))
+    why, _ = oracle_decimal(ctx.rng)
+    ctx.suites['decimal_exponents'] = {'cases': 12, 'failure': why}
+    ctx.evaluations += 12
+    if why:
+        ctx.problem('oracle', 'property fails on the implementation: ' + why, inputs={'suite': 'decimal_exponents'}, failing_input_found=True)
     # relative_coeff_vector with permuted and perturbed reference rows
     rc = []
     for _ in range(ctx.n(500, 5000)):
@@ -298,6 +303,44 @@ def run(ctx):
             ctx.problem('correspondence', 'suite rcv: model and implementation disagree on %s; impl=%s; oracle: %s'
                         % (rc[idx][0], rc[idx][2][:300], why), inputs={'suite': 'rcv', 'input': rc[idx][0], 'property_failure': why},
                         failing_input_found=bool(why))
+
+
+def oracle_decimal(rng):
+    """exponents that are neither binary fractions nor 7-decimal numbers (thirds, sevenths): the reference basis is the one the library itself
+    builds (the exponents of f + s*h, rounded by the constructor), and the identity s(x) h(x) = s.c . (C G_L(x)) is checked numerically for
+    random coefficient vectors; h with ONE term and with several"""
+    Signomial, Polynomial, sc = mods()
+    for trial in range(12):
+        n = rng.randint(1, 2)
+        den = rng.choice([3, 7, 9])
+        def row():
+            return [rng.randint(-4, 6) / den for _ in range(n)]
+        ms, mh = rng.randint(1, 3), rng.choice([1, 1, 2, 3])
+        s_alpha = np.array([row() for _ in range(ms)])
+        h_alpha = np.array([row() for _ in range(mh)])
+        s = Signomial(s_alpha, np.array([float(rng.choice([1, -2, 3])) for _ in range(ms)]))
+        h = Signomial(h_alpha, np.array([float(rng.choice([1, -1, 2, 5])) for _ in range(mh)]))
+        if s.m != ms or h.m != mh:
+            continue
+        # L carries every exponent of s*h whatever the coefficients of s are: product with all-ones coefficients, plus one more term
+        L = Signomial(s.alpha, np.ones(s.m)) * Signomial(h.alpha, np.abs(h.c)) + Signomial(np.array([row()]), np.array([1.0]))
+        try:
+            with warnings.catch_warnings():
+                warnings.simplefilter('ignore')
+                C = np.asarray(sc.moment_reduction_array(s, h, L), dtype=float)
+        except RuntimeError:
+            return ('moment_reduction_array raised although L was built from the product of the same exponents; s.alpha=%s h.alpha=%s'
+                    % (s.alpha.tolist(), h.alpha.tolist())), None
+        for _ in range(3):
+            coeffs = np.array([float(rng.randint(-3, 3)) for _ in range(s.m)])
+            x = np.array([rng.randint(-4, 4) / 4.0 for _ in range(n)])
+            GL = np.exp(L.alpha @ x)
+            lhs = float((coeffs @ np.exp(s.alpha @ x)) * h(x))
+            rhs = float(coeffs @ (C @ GL))
+            if abs(lhs - rhs) > 1e-9 * (1 + abs(lhs) + float(np.abs(coeffs) @ (np.abs(C) @ GL))):
+                return ('s(x) h(x) = %r but s.c . (C G_L(x)) = %r at x = %s for the coefficient vector %s; s.alpha=%s, h.alpha=%s (h has %d term(s)), '
+                        'C=%s' % (lhs, rhs, x.tolist(), coeffs.tolist(), s.alpha.tolist(), h.alpha.tolist(), h.m, C.tolist())), None
+    return None, None
 
 
 def search(ctx):
